@@ -11,9 +11,13 @@ argument type `t = (key, ptrDepth)`:
     if !ok { info := compute(typ); if err → return err (nothing stored); f = cache.LoadOrStore(typ, info) }
     ti := *f; ti.Struct = t; return &ti
 
-Two facts about the real code are *measured* on every run through the verif hook
-(`TypeInfoIdentity`, `TypeCacheKeys`): the returned object is a private copy, and entries are keyed
-by the dereferenced type; the theorems below are about the protocol with those facts.
+Two facts about the real code — the returned object is a private copy, and entries are keyed by the
+dereferenced type — are *measured* on every run through the verif hook (`TypeInfoIdentity`,
+`TypeCacheKeys`) and, since the whole of `getTypeInfo` is regenerated from the source, also *proved*
+about the regenerated code (`Props/TypeCacheIR.lean`: `returned_record_is_private`,
+`entries_are_keyed_by_dereferenced_type`, and `getTypeInfo_eq_model`: the regenerated function equals
+`getTypeInfo` below with `compute := typeInfoOf structs`). The theorems of `Props/C18Core.lean` are
+about the protocol.
 -/
 
 namespace GoCrypt.TypeCache
